@@ -98,11 +98,17 @@ def _invalidate_lattice(cfg, rng):
   mono = [1 if m in (1, "increasing") else 0 for m in cfg["monotonicities"]]
   t = lambda *a: a
   faults = ["size1", "mono_value", "min_gt_max", "interpolation", "trust_direction", "dominance_free_dim", "trust_free_main", "self_trust",
-            "mono_and_unimodal", "unimodal_small_dim", "ju_direction", "dim_out_of_range"]
+            "mono_and_unimodal", "unimodal_small_dim", "ju_direction", "dim_out_of_range", "regularizer_name", "ju_duplicate_dims"]
   f = faults[int(rng.randint(len(faults)))]
   free = [d for d in range(rank) if not mono[d]]
   monos = [d for d in range(rank) if mono[d]]
-  if f == "size1":
+  if f == "regularizer_name":
+    cfg["kernel_regularizer"] = t("bogus", 0.1, 0.1)          # documented names: 'torsion', 'laplacian'
+  elif f == "ju_duplicate_dims" and [d for d in free if sizes[d] >= 3]:
+    d0 = [d for d in free if sizes[d] >= 3][0]
+    cfg["unimodalities"] = None
+    cfg["joint_unimodalities"] = [t(t(d0, d0), "peak")]        # "all dimensions within a single joint unimodality must be distinct"
+  elif f == "size1":
     sizes[int(rng.randint(rank))] = 1
     cfg["lattice_sizes"] = sizes
   elif f == "mono_value":
@@ -220,7 +226,19 @@ def _life_cycle(ctx, what, cfg, construct, build_and_eval, info_extra=None, must
               "%s accepted although the documentation says it must be rejected: %s" % (what, must_reject), info=info)
   try:
     problems = build_and_eval(obj, "run")
-    ctx.check("lifecycle/accepted-runs-finitely", not problems, "%s accepted, then: %s" % (what, "; ".join(problems or [])), info=info)
+    fkp = None
+    if problems and set(problems) == {"non-finite outputs"} and what == "PWLCalibration":
+      # KF-C05-a reached through C16's hostile weights: logits x30 collapse a learned segment to length 0 in float32 and an
+      # input equal to that keypoint coordinate evaluates 0/0 (mechanism hook: kp + length == kp exactly as the layer computed it)
+      try:
+        if getattr(obj, "input_keypoints_type", "fixed") == "learned_interior":
+          l32 = np.asarray(obj._lengths.numpy()).astype(np.float32)
+          k32 = np.asarray(obj._interpolation_keypoints.numpy()).astype(np.float32)
+          if bool(np.any((k32 + l32).astype(np.float32) == k32)):
+            fkp = "KF-C05-a"
+      except Exception:
+        fkp = None
+    ctx.check("lifecycle/accepted-runs-finitely", not problems, "%s accepted, then: %s" % (what, "; ".join(problems or [])), info=info, finding=fkp)
   except Exception as e:
     fk = findings.classify_c16(what, cfg, "run", e)
     ctx.check("lifecycle/accepted-runs-finitely", False,
@@ -298,6 +316,8 @@ def _run_lattice_constraints(ctx, rng, explicit=None):
   units = cfg.pop("units")
   for k in ("monotonic_at_every_step", "clip_inputs", "interpolation", "kernel_initializer"):
     cfg.pop(k)
+  if cfg.pop("kernel_regularizer", None) is not None:
+    _state["fault"] = None          # a layer-only fault (regularizer name): the constraint class has no such argument
   cfg["enforce_strict_monotonicity"] = pick(rng, [True, False])
   n = int(np.prod(cfg["lattice_sizes"]))
 
@@ -560,8 +580,10 @@ def _run_single_fault(ctx, rng):
     cfg = dict(input_keypoints=[0.0, 1.0, 2.5], units=pick(rng, [1, 2]), output_min=0.0, output_max=1.0, clamp_min=False, clamp_max=False,
                monotonicity=mono, convexity="none", is_cyclic=False, kernel_initializer="equal_heights", impute_missing=False,
                missing_input_value=None, missing_output_value=None, num_projection_iterations=2, split_outputs=False, input_keypoints_type="fixed")
-    fault = pick(rng, ["unsorted", "duplicate", "single", "min_gt_max", "mono_value", "cyclic_mono", "cyclic_convex", "keypoints_type"])
-    if fault == "unsorted":
+    fault = pick(rng, ["unsorted", "duplicate", "single", "min_gt_max", "mono_value", "cyclic_mono", "cyclic_convex", "keypoints_type", "regularizer_name"])
+    if fault == "regularizer_name":
+      cfg["kernel_regularizer"] = t("bogus", 0.1, 0.1)        # documented names: 'laplacian', 'hessian', 'wrinkle'
+    elif fault == "unsorted":
       cfg["input_keypoints"] = [0.0, 2.0, 1.0]
     elif fault == "duplicate":
       cfg["input_keypoints"] = pick(rng, [[0.0, 1.0, 1.0, 2.0], [0.0, 0.0, 1.0]])
